@@ -44,7 +44,7 @@ def push3(ctx, db, rid):
     ctx.rule(rid, 'COUNT+GUARDED', 'limited_queue::push: exactly one sink per path: hand-over to the oldest waiting pop (front+pop of the waiter queue once), emplace into the item queue '
              '(only on an edge where size() >= limit is false), or one entry in the blocked list through the returned future; the push completes immediately (set_value) '
              'exactly when it did not block', floor=1)
-    for f, trs in traces_of(db, 'cocls::limited_queue::push', depth=0, per_instance=True):
+    for f, trs in traces_of(db, "cocls::limited_queue::push", per_instance=True):
         trs = [t for t in trs if live(t)]
         ctx.paths(rid, len(trs))
         bad = None; cnt = {'hand': 0, 'enq': 0, 'block': 0}
@@ -62,7 +62,7 @@ def push3(ctx, db, rid):
                         full = (o == '>=' and it.val is True) or (o == '<' and it.val is False)
                         if not below and not full:
                             below = None
-            hand = [c for c in calls(tr) if norm(c.get('callee')) in PROM_CALL and _taken_from(f, c, WAITERS)]
+            hand = [c for c in calls(tr) if C09._foreign(c)]
             emp = [c for c in calls(tr) if on(c, ITEMS) and op(c) in ('emplace', 'push')]
             blk = [c for c in calls(tr) if _block_lambda(db, f, c) is not None]
             done = [c for c in calls(tr) if norm(c.get('callee')) == 'cocls::future::set_value']
@@ -104,13 +104,11 @@ def pop_refill(ctx, db, rid):
     lams = lambdas_of(db, 'cocls::limited_queue::pop')
     if not lams:
         raise Broken('anchor vanished: lambda of limited_queue::pop')
-    T = Tracer(db, depth=0)
-    from ..locks import LockAnalysis
-    la = LockAnalysis(db, GUARDED)
+    T = htracer(db)
     for lf in lams:
-        trs = [t for t in T.traces(lf) if live(t)]
+        alltr = T.traces(lf)
+        trs = [t for t in alltr if live(t)]
         ctx.paths(rid, len(trs))
-        held = la.held_map(lf)
         bad = None; nref = nno = npark = 0
         void = 'void' in re.findall(r'limited_queue<([^,>]*)', lf.get('inst') or '')[:1]
         for tr in trs:
@@ -123,12 +121,12 @@ def pop_refill(ctx, db, rid):
                     if ce is not None and on(ce, BLOCKED) and op(ce) == 'empty':
                         blocked_empty = bool(it.val)
             park = [c for c in calls(tr) if on(c, WAITERS) and op(c) in ('emplace', 'push')]
-            res = [c for c in calls(tr) if norm(c.get('callee')) in PROM_CALL and (c.get('recv') or '').startswith('param:')]
+            res = [c for c in calls(tr) if norm(c.get('callee')) in PROM_CALL and C09._own(c)]
             ipop = [c for c in calls(tr) if on(c, ITEMS) and op(c) == 'pop']
             ipush = [c for c in calls(tr) if on(c, ITEMS) and op(c) in ('push', 'emplace')]
             bpop = [c for c in calls(tr) if on(c, BLOCKED) and op(c) == 'pop']
             bfront = [c for c in calls(tr) if on(c, BLOCKED) and op(c) == 'front']
-            comp = [c for c in calls(tr) if norm(c.get('callee')) in PROM_CALL and _taken_from(lf, c, BLOCKED)]
+            comp = [c for c in calls(tr) if C09._foreign(c)]
             if empty is None:
                 bad = bad or ('pop does not test the item queue', tr); continue
             if empty:
@@ -152,7 +150,7 @@ def pop_refill(ctx, db, rid):
                 else:
                     if tr.index(bfront[0]) > tr.index(bpop[0]):
                         bad = bad or ('the blocked entry is removed before it is read', tr)
-                    if held.get(comp[0].get('id'), frozenset()):
+                    if trace_lockset(tr)[tr.index(comp[0])]:
                         bad = bad or ('the blocked push is completed while the queue lock is still held', tr)
         if not bad and (nref == 0 or nno == 0 or npark == 0):
             bad = ('pop lost one of its outcomes (park %d, deliver %d, deliver+refill %d)' % (npark, nno, nref), trs[0] if trs else [])
